@@ -437,6 +437,37 @@ def zlib_crc(text):
     return zlib.crc32(text.encode())
 
 
+_TEMP_NAME_CACHE = {}
+
+
+def temp_archive_path(folder: Path):
+    """where the library's own `zip_directory` builds the archive of `folder` before it is complete (observed on a
+    scratch folder of the same name, not assumed)"""
+    import tempfile
+    import zipfile
+    import autofit.tools.util as U
+
+    if folder.name not in _TEMP_NAME_CACHE:
+        seen = []
+        orig = zipfile.ZipFile.__init__
+
+        def spy(self, file, *a, **k):
+            seen.append(str(file))
+            return orig(self, file, *a, **k)
+
+        with tempfile.TemporaryDirectory() as t:
+            scratch = Path(t) / folder.name
+            scratch.mkdir()
+            (scratch / "x").write_text("x")
+            zipfile.ZipFile.__init__ = spy
+            try:
+                U.zip_directory(scratch)
+            finally:
+                zipfile.ZipFile.__init__ = orig
+        _TEMP_NAME_CACHE[folder.name] = Path(seen[0]).name if seen else folder.name + ".zip.tmp"
+    return folder.parent / _TEMP_NAME_CACHE[folder.name]
+
+
 def store_one(folder: Path, how):
     z = Path(str(folder) + ".zip")
     if not z.exists() or not folder.exists():
@@ -445,7 +476,9 @@ def store_one(folder: Path, how):
         # what a process killed while compressing this folder once left behind: a truncated temporary archive.
         # It is not an archive of a fit; loading ignores it.
         data = z.read_bytes()
-        Path(str(z) + ".tmp").write_bytes(data[: max(1, len(data) // 2)])
+        tmp = temp_archive_path(folder)
+        if tmp.name != z.name:
+            tmp.write_bytes(data[: max(1, len(data) // 2)])
     if how == "zip":
         shutil.rmtree(folder)
     elif how == "folder":
